@@ -177,7 +177,10 @@ PubPoint(pr, f) ==
 \*   means an honest partial signature for that nonce verifies; for a half at infinity the
 \*   binder presents the forged nonce (R1 + b R2, infinity) resp. (infinity, (R1 + b R2)/b)
 \*   that satisfies the verification equation, so that only the parsing rule refuses it.
-HalfForms    == {"even", "odd", "zero33", "zero_junk", "tag04", "offc", "xgep"}
+\*   zero_junk_first / zero_junk_mid / zero_junk_last: 00, then zero bytes except ONE non-zero
+\*   byte at position 1 / 16 / 32 (the last byte)
+HalfForms    == {"even", "odd", "zero33", "zero_junk", "zero_junk_first", "zero_junk_mid", "zero_junk_last",
+                 "tag04", "offc", "xgep"}
 HalfPlain(h) == h \in {"even", "odd"}
 HalfExt(h)   == HalfPlain(h) \/ h = "zero33"
 NonceParsers == {"musig.pubnonce", "musig.aggnonce", "musig.partialverify.pubnonce"}
